@@ -103,7 +103,7 @@ Proof. apply Z.eqb_neq. Qed.
 Lemma entry_inv o cfg bs cfgsx objs ops m x e x' gx :
   G o (x_sys x) gx -> J m (x_sys x) gx -> replay_entry cfg bs x e = Some x' ->
   exists gx', gpath cfg (allowed e) (x_sys x) gx (x_sys x') gx' /\
-              J (mon_entry cfgsx objs ops m e) (x_sys x') gx' /\ post e x gx x' gx'.
+              J (mon_entry cfgsx objs ops m e) (x_sys x') gx' /\ post cfg bs e x gx x' gx'.
 Proof.
   intros Hg Hj H.
   destruct (replay_entry_sound cfg bs x e x' gx (proj2 Hg) H) as [gx' [Hp Hpost]].
@@ -124,7 +124,7 @@ Proof.
   { eapply gpath_weaken; [|exact Hp]. intros s0 ev [[Hc|Hc] _]; [contradiction|exact Hc]. }
   pose proof (Jc_gpath _ _ _ _ _ _ _ _ _ _ _ _ _ _ Hg Hp' Hj) as Hj'.
   pose proof (gpath_acks_same _ _ _ _ _ Hp') as Hacks.
-  destruct Hpost as [Q8a [Q8b [Q9 [Q6 [Q13 [_ [Q18 _]]]]]]].
+  destruct Hpost as [Q8a [Q8b [Q9 [Q6 [Q13 [_ [Q18 [_ _]]]]]]]].
   rewrite (neqb _ _ N4), Bool.orb_false_r.
   destruct (Z.eq_dec (tag e) 3) as [E|N3].
   { rewrite E. cbn [Z.eqb Pos.eqb orb andb]. rewrite !Bool.orb_false_r.
@@ -183,10 +183,10 @@ Qed.
 Definition K (st0 : pstate) (x : xst) (gx : gsys) : Prop :=
   x_state x = match gs_writes gx with w :: _ => gw_state w | [] => st0 end.
 
-Lemma entry_K cfg st0 e x gx x' gx' : K st0 x gx -> gpath cfg (allowed e) (x_sys x) gx (x_sys x') gx' ->
-  post e x gx x' gx' -> K st0 x' gx'.
+Lemma entry_K cfg bs st0 e x gx x' gx' : K st0 x gx -> gpath cfg (allowed e) (x_sys x) gx (x_sys x') gx' ->
+  post cfg bs e x gx x' gx' -> K st0 x' gx'.
 Proof.
-  intros Hk Hp [_ [_ [_ [_ [Q13 [Q13f [_ Qs]]]]]]]. unfold K in *.
+  intros Hk Hp [_ [_ [_ [_ [Q13 [Q13f [_ [Qs _]]]]]]]]. unfold K in *.
   destruct (Z.eq_dec (tag e) 13) as [E|N].
   - destruct (sx_bool (sx_nth e 2)) eqn:B.
     + destruct (Q13 E eq_refl) as [w [_ [Hw Hs]]]. rewrite Hw. exact Hs.
@@ -194,7 +194,7 @@ Proof.
   - rewrite (Qs N).
     assert (Hw : gs_writes gx' = gs_writes gx).
     { apply (gpath_writes_same cfg (x_sys x) gx (x_sys x') gx'). eapply gpath_weaken; [|exact Hp].
-      intros s0 ev [_ [Hc|Hc]]; [contradiction|exact Hc]. }
+      intros s0 ev [_ [[Hc|Hc] _]]; [contradiction|exact Hc]. }
     rewrite Hw. exact Hk.
 Qed.
 
@@ -209,7 +209,7 @@ Proof.
   - destruct (replay_entry cfg bs x e) as [x'|] eqn:R; [|discriminate].
     destruct (entry_inv o cfg bs cfgsx objs ops m x e x' gx Hg Hj R) as [gx' [Hp [Hj' Hpost]]].
     assert (Hg' : G o (x_sys x') gx') by (eapply G_gpath; eauto).
-    pose proof (entry_K cfg st0 e x gx x' gx' Hk Hp Hpost) as Hk'.
+    pose proof (entry_K cfg bs st0 e x gx x' gx' Hk Hp Hpost) as Hk'.
     destruct (IH _ _ _ _ _ Hg' Hj' Hk' H) as [gx1 [Hp1 [Hj1 Hk1]]].
     exists gx1. split; [|auto]. eapply gpath_trans; [|exact Hp1]. eapply gpath_weaken; [|exact Hp]. auto.
 Qed.
